@@ -151,6 +151,8 @@ func race(fr *FuncResult, o *Obligation, mode, base string, perOblS int, sem cha
 		file = fmt.Sprintf("%s.o%p%s.smt2", base, o, mode)
 	}
 	os.WriteFile(file, []byte(script), 0o644)
+	files := []string{file}
+
 	type ans struct {
 		st, solver, out string
 		secs            float64
@@ -160,18 +162,28 @@ func race(fr *FuncResult, o *Obligation, mode, base string, perOblS int, sem cha
 	svs := solvers(perOblS)
 	ch := make(chan ans, len(svs))
 	n := 0
-	for _, sv := range svs {
-		if sv.Name == skip {
-			continue
+	ch = make(chan ans, len(svs)*len(files))
+	for fi, f := range files {
+		for _, sv := range svs {
+			if sv.Name == skip {
+				continue
+			}
+			n++
+			go func(sv Solver, f string, fi int) {
+				sem <- struct{}{}
+				out, secs := runSolver(ctx, sv.Cmd, f)
+				<-sem
+				first := strings.TrimSpace(strings.SplitN(out, "\n", 2)[0])
+				name := sv.Name
+				if fi == 1 {
+					name += "(expanded)"
+					if first == "sat" {
+						// a model of the expanded form is still a model: keep it
+					}
+				}
+				ch <- ans{first, name, out, secs}
+			}(sv, f, fi)
 		}
-		n++
-		go func(sv Solver) {
-			sem <- struct{}{}
-			out, secs := runSolver(ctx, sv.Cmd, file)
-			<-sem
-			first := strings.TrimSpace(strings.SplitN(out, "\n", 2)[0])
-			ch <- ans{first, sv.Name, out, secs}
-		}(sv)
 	}
 	var last ans
 	for i := 0; i < n; i++ {
